@@ -289,7 +289,7 @@ class GenericSpatialTransform(SequentialTransform):
                 modules = _modules
         # Set parameters of transformation if given as dictionary
         if isinstance(params, Mapping):
-            for name, transform in self.named_transforms():
+            for name, transform in modules.items():
                 transform.data_(params[name])
         # Insert transformations in order of composition
         super().__init__(grid, modules)
